@@ -364,6 +364,10 @@ def _norm(x, ord=None, axis=None, **k):
             return sqrt(v @ v)
         if ord is _np.inf and axis is None:
             return max_(abs_(xa.ravel()))
+        if ord is None and axis in (-1, 1) and xa.ndim == 2:
+            return _np.array([sqrt(r @ r) for r in xa], dtype=object)
+        if ord is None and axis == 0 and xa.ndim == 2:
+            return _np.array([sqrt(c @ c) for c in xa.T], dtype=object)
         raise NotImplementedError("norm ord/axis on symbolic array")
     if xa.dtype == object:
         xa = xa.astype(float)
@@ -478,6 +482,12 @@ def argmax(a, axis=None, **k):
 def cross(a, b, **k):
     a, b = _np.asarray(a), _np.asarray(b)
     if a.dtype == object or b.dtype == object:
+        if k.get("axisb") == 0 and b.ndim == 2 and a.ndim == 1:
+            return _np.array([cross(a, b[:, i]) for i in range(b.shape[1])], dtype=object)
+        if k:
+            raise NotImplementedError("cross with axis arguments on symbolic arrays")
+        if a.ndim == 1 and b.ndim == 2:
+            return _np.array([cross(a, r) for r in b], dtype=object)
         return _np.array([a[1] * b[2] - a[2] * b[1], a[2] * b[0] - a[0] * b[2], a[0] * b[1] - a[1] * b[0]], dtype=object)
     return _np.cross(a, b, **k)
 
